@@ -1,6 +1,6 @@
 (* Executable entry points compared with the implementation by ./check C15. *)
 From ZV Require Import Prelude GoSem Paging.
-From ZV Require Export Handler Frame.
+From ZV Require Export Handler Frame Session.
 From ZV.gen Require Import Consts.
 Open Scope Z_scope.
 
@@ -10,7 +10,7 @@ Definition outcome_eqb (a b : outcome) : bool :=
   | OPanic, OPanic => true
   | OErr x, OErr y => x =? y
   | OHashes x, OHashes y => zl_eqb x y
-  | OBlocks x, OBlocks y => zl_eqb x y
+  | OBlocks x bx, OBlocks y by_ => zl_eqb x y && (bx =? by_)
   | ONoReply, ONoReply => true
   | _, _ => false
   end.
@@ -34,4 +34,12 @@ Definition decode_packet_run (i : Z * bool * bool * Z * bool) : Z :=
   let '(len, h, s, t, r) := i in
   match decode_packet len h s t r with
   | PTooSmall => 1 | PBadHash => 2 | PBadSig => 3 | PUnknownType => 4 | PBadRlp => 5 | PReq _ => 6 | PPanic => 9
+  end.
+
+(* in: (initial phase, events); out: the phase afterwards *)
+Definition session_run (i : phase * list event) : phase := ph (run (mkConn (fst i) 0 0) (snd i)).
+Definition phase_eqb (a b : phase) : bool :=
+  match a, b with
+  | PEnc, PEnc | PProto, PProto | PWaitStatus, PWaitStatus | PRunning, PRunning | PClosed, PClosed => true
+  | _, _ => false
   end.
